@@ -27,6 +27,18 @@ def load32 (mem : Nat → BitVec 8) (a : Nat) : BitVec 32 := mem (a + 3) ++ mem 
 def load64 (mem : Nat → BitVec 8) (a : Nat) : BitVec 64 :=
   mem (a + 7) ++ mem (a + 6) ++ mem (a + 5) ++ mem (a + 4) ++ mem (a + 3) ++ mem (a + 2) ++ mem (a + 1) ++ mem a
 
+def store8 (mem : Nat → BitVec 8) (a : Nat) (v : BitVec 8) : Nat → BitVec 8 :=
+  fun x => if x = a then v else mem x
+
+/-- little-endian 16-bit store -/
+def store16 (mem : Nat → BitVec 8) (a : Nat) (v : BitVec 16) : Nat → BitVec 8 :=
+  fun x => if x = a then v.extractLsb' 0 8 else if x = a + 1 then v.extractLsb' 8 8 else mem x
+
+/-- little-endian 32-bit store -/
+def store32 (mem : Nat → BitVec 8) (a : Nat) (v : BitVec 32) : Nat → BitVec 8 :=
+  fun x => if x = a then v.extractLsb' 0 8 else if x = a + 1 then v.extractLsb' 8 8
+    else if x = a + 2 then v.extractLsb' 16 8 else if x = a + 3 then v.extractLsb' 24 8 else mem x
+
 /-- `__builtin_bswap16` -/
 def bswap16 (x : BitVec 16) : BitVec 16 := x.extractLsb' 0 8 ++ x.extractLsb' 8 8
 
